@@ -112,15 +112,20 @@ def Sys.release (a : Nat) : List Nat → Sys → Sys
                  | some false => Ev.veto b s.now :: s.trace
                  | none => s.trace }
 
-/-- `Activity::complete(state)`: `state_ = state; fire_on_completion(); if (state == FINISHED) release_dependencies();` -/
+/-- `Activity::complete(state)`: `state_ = state; fire_on_completion(); if (state == FINISHED) release_dependencies();`
+For a Comm `fire_on_completion()` is an empty override (include/simgrid/s4u/Comm.hpp): the `on_completion` signal is
+fired by `CommImpl::finish()`, which `EngineImpl::handle_ended_actions` calls *after* `complete()` returned — so the
+signals of the successors started by `release_dependencies` come first in the stream (same date). -/
 def Sys.complete (s : Sys) (a : Nat) (st : St) : Sys :=
   let x := s.acts a
+  let late := x.kind == .comm
   let s1 : Sys := { s with acts := upd s.acts a { x with state := st, tFinish := some s.now }
-                           trace := Ev.finish a s.now st :: s.trace }
+                           trace := if late then s.trace else Ev.finish a s.now st :: s.trace }
   if st = .finished then
     let s2 := s1.release a x.succs.reverse
-    { s2 with acts := upd s2.acts a { (s2.acts a) with succs := [] } }
-  else s1
+    { s2 with acts := upd s2.acts a { (s2.acts a) with succs := [] }
+              trace := if late then Ev.finish a s.now st :: s2.trace else s2.trace }
+  else { s1 with trace := if late then Ev.finish a s.now st :: s1.trace else s1.trace }
 
 inductive Field where
   | host | src | dst
